@@ -1,5 +1,5 @@
 (* C17 model runner.  One case per line:
-   <id> T|A|W|V|U|u|X <pred>    (V: auth client, token for the request's own scope cached: same re-send structure as A) <maxretry> <minw> <maxw> <tbl> <dflt> <cancel> <bodykind> <hexbody> <script> <opts>
+   <id> T|A|W|V|U|u|X|Y|y <pred>    (V: auth client, token for the request's own scope cached: same re-send structure as A) <maxretry> <minw> <maxw> <tbl> <dflt> <cancel> <bodykind> <hexbody> <script> <opts>
         opts    harness-only options the code under test must not depend on (u = ContentLength left
                 unknown, method=..., preauth = auth client stack with Authorization preset); ignored here
         tbl     comma separated integers, or -
@@ -135,7 +135,7 @@ let guarded = exp_backoff_guarded
 let () =
   iter_lines (fun l ->
     match split_ws l with
-    | [id; ("T" | "A" | "W" | "V" | "U" | "u" | "X") as op; pred; mr; mn; mx; tbl; dflt; cn; kind; body; script; _opts] ->
+    | [id; ("T" | "A" | "W" | "V" | "U" | "u" | "X" | "Y" | "y") as op; pred; mr; mn; mx; tbl; dflt; cn; kind; body; script; _opts] ->
       let p = table_policy (parse_pred pred) (z_of_string mr) (z_of_string mn) (z_of_string mx)
           (List.map z_of_string (split_on ',' tbl)) (z_of_string dflt) in
       (* M/m: manifest push (type without subject) through an auth / another client;
@@ -152,7 +152,18 @@ let () =
         | None -> bd0 in
       let sc = List.map parse_beh (split_on ';' script) in
       let cn = parse_cancel cn in
-      if op = "U" || op = "u" || op = "X" then begin
+      if op = "Y" || op = "y" then begin
+        (* blobStore.Mount declined by the registry (202): the same POST/PUT protocol, the PUT reads
+           from an io.ReadCloser, i.e. a body that cannot be replayed *)
+        let bd = { bk = KOneShot; bdata = bd.bdata } in
+        let u = blob_push_gen (op = "Y") false p cn bd sc in
+        let atts a = show_attempts_list bd.bdata a in
+        let put1, put2 = match u.u_put with
+          | Some a -> atts (attempts a.a_first), atts (attempts a.a_second)
+          | None -> "-", "-" in
+        Printf.printf "%s %s end=%s post=%s|%s put=%s|%s\n" id (show_result u.u_res) (string_of_z u.u_time)
+          (atts (attempts u.u_post.a_first)) (atts (attempts u.u_post.a_second)) put1 put2
+      end else if op = "U" || op = "u" || op = "X" then begin
         (* blob push through the Repository: U = auth client, u = plain retrying client,
            X = auth client whose cache already holds the token for the push's scope *)
         let u = blob_push_gen (op <> "u") (op = "X") p cn bd sc in
